@@ -321,6 +321,8 @@ func runC01(c *Ctx) error {
 							}
 							bops = append(bops, op)
 						}
+						// a streamed send whose reader starts with an empty read (the first frame on the wire is an empty non-final one)
+						bops = append(bops, sendOp{API: "file", Opcode: 2, Reader: newChunkReader([][]byte{{}, []byte("after an empty first read")}, "sep")})
 						if !e2eDirection(c, p, fromServer, bops, parallel, tag+" boundaries", false, 0, pc.utf8) {
 							break
 						}
